@@ -140,8 +140,21 @@ def _run_shard(args):
         out.extend(good)
         i += len(good)
         if len(good) < len(chunk):
-            # the process died (or timed out) inside request i: record it and continue after it
-            out.append({"file": reqs[i].split()[-1], "status": "CRASH:%s" % rc, "stdout": "", "stderr": ""})
+            # the process died (or timed out) inside request i: record it and continue after it.
+            # The time limit is on the whole remaining chunk, so a timeout says nothing about request
+            # i by itself (a loaded machine and a long chunk are enough): run it alone before blaming it.
+            rec = {"file": reqs[i].split()[-1], "status": "CRASH:%s" % rc, "stdout": "", "stderr": ""}
+            if rc == "timeout":
+                try:
+                    p1 = subprocess.run(cmd, input=reqs[i] + "\n", stdout=subprocess.PIPE,
+                                        stderr=subprocess.PIPE, text=True, timeout=max(300, timeout // 2))
+                    l1 = [l for l in p1.stdout.split("\n") if l.strip()]
+                    rec = json.loads(l1[0]) if l1 else dict(rec, status="CRASH:%s" % p1.returncode)
+                except subprocess.TimeoutExpired:
+                    pass
+                except ValueError:
+                    rec = dict(rec, status="CRASH:unparsable-output")
+            out.append(rec)
             i += 1
     return out
 
